@@ -103,7 +103,7 @@ fn parent(args: &Args) {
                 "only strings inside the documented grammar are generated (no `foo=`, `03`, `=info`, empty directives, whitespace)".into(),
                 "value patterns are regex-metacharacter free, so 'anchored regex' and 'literal' both mean string equality with the Debug output".into(),
                 "a field-name list on *span* metadata, ties between equally specific directives with different field lists, cross-type numeric equality, values re-recorded or recorded while the span is entered, spans more verbose than their directive (F14): not judged (Open)".into(),
-                "histories are single-threaded and well nested; every field is recorded at most once".into(),
+                "histories are single-threaded and well nested; a field is recorded again only with the value it already has (which must change nothing)".into(),
                 "regex mode: whether a `&str` value is compared raw or through its Debug text is not fixed by the property; a history holds if either reading explains it (counter open_str_value_matched_raw_or_debug)".into(),
                 "'same filter' after a round trip = same decisions over the universe, same history deliveries, Display fixpoint".into(),
             ],
@@ -649,12 +649,16 @@ fn gen_history(rng: &mut Rng, dirs: &[Dir], live: &[usize], pool: &Pool) -> Vec<
     let mut created = vec![false; nslots];
     let mut alive = vec![false; nslots];
     let mut pending: Vec<Vec<(usize, Val)>> = vec![vec![]; nslots];
+    // values a span already carries (given at creation or recorded later): recording such a
+    // field AGAIN WITH THE SAME VALUE must change nothing
+    let mut recorded: Vec<Vec<(usize, Val)>> = vec![vec![]; nslots];
     let mut stack: Vec<usize> = vec![];
     for _ in 0..nops {
         let can_create: Vec<usize> = (0..nslots).filter(|&s| !created[s]).collect();
         let can_enter: Vec<usize> = (0..nslots).filter(|&s| alive[s]).collect();
         let can_record: Vec<usize> = (0..nslots).filter(|&s| alive[s] && !pending[s].is_empty()).collect();
         let can_drop: Vec<usize> = (0..nslots).filter(|&s| alive[s] && !stack.contains(&s)).collect();
+        let can_rerecord: Vec<usize> = (0..nslots).filter(|&s| alive[s] && !recorded[s].is_empty()).collect();
         let w = [
             if can_create.is_empty() { 0 } else { 6 },
             if can_enter.is_empty() || stack.len() >= 4 { 0 } else { 7 },
@@ -662,6 +666,7 @@ fn gen_history(rng: &mut Rng, dirs: &[Dir], live: &[usize], pool: &Pool) -> Vec<
             12,
             if can_record.is_empty() { 0 } else { 6 },
             if can_drop.is_empty() { 0 } else { 1 },
+            if can_rerecord.is_empty() { 0 } else { 4 },
         ];
         match rng.weighted(&w) {
             0 => {
@@ -675,6 +680,12 @@ fn gen_history(rng: &mut Rng, dirs: &[Dir], live: &[usize], pool: &Pool) -> Vec<
                 }
                 created[s] = true;
                 alive[s] = true;
+                let nf = pool.spans[cast[s]].desc.fields.len();
+                for (fi, v) in vals.iter().enumerate().take(nf) {
+                    if *v != Val::Empty {
+                        recorded[s].push((fi, v.clone()));
+                    }
+                }
                 ops.push(Op::Create { slot: s, cs: cast[s], vals });
             }
             1 => {
@@ -701,13 +712,25 @@ fn gen_history(rng: &mut Rng, dirs: &[Dir], live: &[usize], pool: &Pool) -> Vec<
             4 => {
                 let s = *rng.pick(&can_record);
                 let (fi, v) = pending[s].pop().unwrap();
+                if fi < pool.spans[cast[s]].desc.fields.len() {
+                    recorded[s].push((fi, v.clone()));
+                }
                 ops.push(Op::Record { slot: s, field: fi, val: v });
             }
-            _ => {
+            5 => {
                 let s = *rng.pick(&can_drop);
                 alive[s] = false;
                 pending[s].clear();
+                recorded[s].clear();
                 ops.push(Op::Drop { slot: s });
+            }
+            _ => {
+                // the same field once more, with the value it already has (1..3 times)
+                let s = *rng.pick(&can_rerecord);
+                let (fi, v) = rng.pick(&recorded[s]).clone();
+                for _ in 0..1 + rng.usize(3) {
+                    ops.push(Op::Record { slot: s, field: fi, val: v.clone() });
+                }
             }
         }
     }
